@@ -269,27 +269,158 @@ fn emit10(w: &mut CasesWriter, p: &Prog, text: &str, stream: &str, trap: bool, t
         eprintln!("=== case {}\n{}", w.len(), text);
     }
     let out = run_text(text);
+    emit_out(w, p, text, stream, trap, false, &out, tags);
+}
+
+#[allow(clippy::too_many_arguments)]
+fn emit_out(
+    w: &mut CasesWriter,
+    p: &Prog,
+    text: &str,
+    stream: &str,
+    trap: bool,
+    unordered: bool,
+    out: &ImplOut,
+    tags: &[&str],
+) {
     count_constructs(p, w);
     w.count(&format!("stream:{stream}"));
     let trapkey = if trap { Some(coq::n(TRAP_KEY)) } else { None };
-    if let ImplOut::Ok(tr, st) = &out {
-        w.count(if *st == 0 { "final status:0" } else { "final status:nonzero" });
+    if let ImplOut::Ok(tr, st) = out {
+        w.count(&format!("{stream} final status:{}", if *st == 0 { "0" } else { "nonzero" }));
         if trap {
-            w.count(&format!("exit trap runs:{}", tr.iter().filter(|(k, _)| *k == TRAP_KEY).count()));
+            w.count(&format!("{stream} exit trap runs:{}", tr.iter().filter(|(k, _)| *k == TRAP_KEY).count()));
         }
     }
-    let term = format!("({}, {}, {})", coq_prog(p), coq::opt(trapkey), out.coq());
+    let term = format!("({}, {}, {}, {})", coq_prog(p), coq::opt(trapkey), coq::b(unordered), out.coq());
     let json = format!(
         "{{\"stream\":{},\"script\":{},\"observed\":{}}}",
         json_str(stream),
         json_str(text),
         json_str(&out.show())
     );
-    let key = match &out {
-        ImplOut::Ok(tr, _) if !tr.is_empty() => Some(coq_prog(p)),
+    let key = match out {
+        ImplOut::Ok(tr, _) if !tr.is_empty() => Some(format!("{stream}:{}", coq_prog(p))),
         _ => None,
     };
     w.push(&term, &json, tags, key);
+}
+
+// ---------------------------------------------------------------------------
+// The real binary: `yash3` built from the repository under test
+// ---------------------------------------------------------------------------
+
+/// Builds the real shell binary from $YV_REPO (default /repo); returns its path.
+/// A build failure is a harness error, not a verdict.
+fn build_yash3() -> String {
+    let repo = std::env::var("YV_REPO").unwrap_or_else(|_| "/repo".to_string());
+    let target = std::env::var("CARGO_TARGET_DIR").unwrap_or_else(|_| "/verif/.cache/target".to_string());
+    let target = format!("{target}/yash3");
+    let out = std::process::Command::new("cargo")
+        .args(["build", "--offline", "--locked", "-p", "yash-cli", "--manifest-path"])
+        .arg(format!("{repo}/Cargo.toml"))
+        .env("CARGO_TARGET_DIR", &target)
+        .env("CARGO_NET_OFFLINE", "true")
+        .output()
+        .expect("cargo");
+    if !out.status.success() {
+        eprintln!("building yash3 failed:\n{}", String::from_utf8_lossy(&out.stderr));
+        std::process::exit(3);
+    }
+    format!("{target}/debug/yash3")
+}
+
+/// `probe`, `true`, `false` do not exist in the real binary (no external
+/// utilities: PATH is empty): they are defined as functions whose effect is
+/// visible in the file system.  `probe K [S]` appends one line to the file
+/// `m.K.$?` and returns S.
+const REAL_PRELUDE: &str = "probe() { _s=$?; umask >>\"m.$1.$_s\"; return ${2:-0}; }\n\
+true() { return 0; }\nfalse() { return 1; }\n";
+
+/// Runs the script with the real binary in a fresh scratch directory; returns
+/// the exit status and, sorted, how often each (key, `$?`) pair was probed.
+fn run_real(yash3: &str, dir: &std::path::Path, script: &str) -> ImplOut {
+    use std::io::Read as _;
+    use std::os::unix::process::CommandExt as _;
+    use std::process::Stdio;
+    use std::time::{Duration, Instant};
+    let _ = std::fs::remove_dir_all(dir);
+    std::fs::create_dir_all(dir).expect("scratch directory");
+    let full = format!("{REAL_PRELUDE}{script}");
+    let mut cmd = std::process::Command::new(yash3);
+    cmd.arg("-c")
+        .arg(&full)
+        .current_dir(dir)
+        .env_clear()
+        .env("PATH", "")
+        .process_group(0)
+        .stdin(Stdio::null())
+        .stdout(Stdio::null())
+        .stderr(Stdio::piped());
+    let mut child = cmd.spawn().expect("spawn yash3");
+    let mut err = child.stderr.take().unwrap();
+    let th = std::thread::spawn(move || {
+        let mut b = vec![];
+        let _ = err.read_to_end(&mut b);
+        b
+    });
+    let t0 = Instant::now();
+    let status = loop {
+        match child.try_wait() {
+            Ok(Some(st)) => break st,
+            Ok(None) => {
+                if t0.elapsed() > Duration::from_secs(30) {
+                    let _ = child.kill();
+                    let _ = child.wait();
+                    eprintln!("yash3 timed out (harness error, not a verdict) on:\n{full}");
+                    std::process::exit(3);
+                }
+                std::thread::sleep(Duration::from_millis(1));
+            }
+            Err(e) => {
+                eprintln!("waiting for yash3 failed: {e}");
+                std::process::exit(3);
+            }
+        }
+    };
+    // subshells may outlive nothing here (no asynchronous commands); do not wait for ever anyway
+    let t1 = Instant::now();
+    while !th.is_finished() && t1.elapsed() < Duration::from_secs(2) {
+        std::thread::sleep(Duration::from_millis(1));
+    }
+    let Some(code) = status.code() else {
+        return ImplOut::Crash(format!("yash3 was killed by a signal: {status:?}"));
+    };
+    let mut items: Vec<(u64, i64)> = vec![];
+    for e in std::fs::read_dir(dir).expect("read scratch directory") {
+        let e = e.unwrap();
+        let name = e.file_name().to_string_lossy().into_owned();
+        let parts: Vec<&str> = name.split('.').collect();
+        if parts.len() == 3 && parts[0] == "m" {
+            let (Ok(k), Ok(s)) = (parts[1].parse::<u64>(), parts[2].parse::<i64>()) else {
+                return ImplOut::Crash(format!("unexpected file {name}"));
+            };
+            let lines = std::fs::read(e.path()).map(|b| b.iter().filter(|c| **c == b'\n').count()).unwrap_or(0);
+            for _ in 0..lines {
+                items.push((k, s));
+            }
+        } else {
+            return ImplOut::Crash(format!("unexpected file {name}"));
+        }
+    }
+    items.sort();
+    let _ = std::fs::remove_dir_all(dir);
+    ImplOut::Ok(items, code as i64)
+}
+
+/// Does the script use something that only exists in the simulated shell?
+fn real_compatible(p: &Prog) -> bool {
+    // `command probe ...` / `command true` would bypass the functions of the prelude
+    let t = coq_prog(p);
+    !(t.contains("(mkDeco false true) NProbe")
+        || t.contains("(mkDeco true true) NProbe")
+        || t.contains("true) NTrue")
+        || t.contains("true) NFalse"))
 }
 
 fn trap_line() -> Line {
@@ -310,7 +441,7 @@ fn main() {
             if vi.needs_fun && !infun {
                 continue;
             }
-            for errexit in [false, true] {
+            for (errexit, monitor) in [(false, false), (true, false), (true, true), (false, true)] {
                 for trap in [false, true] {
                     let mut p: Prog = vec![];
                     if trap {
@@ -318,6 +449,10 @@ fn main() {
                     }
                     if errexit {
                         p.push(Line::Cmd(l1(call(Name::Set, &[1]))));
+                    }
+                    if monitor {
+                        // job control on in a non-interactive shell must not change when it aborts
+                        p.push(Line::Cmd(l1(call(Name::Set, &[3]))));
                     }
                     if vi.readonly {
                         p.push(Line::Cmd(l1(Cmd::Readonly(1))));
@@ -331,7 +466,7 @@ fn main() {
                         p.push(Line::Cmd(l.clone()));
                     }
                     planted.push((
-                        format!("{} / {} / errexit {} / trap {}", vi.name, cname, errexit, trap),
+                        format!("{} / {} / errexit {} / trap {}{}", vi.name, cname, errexit, trap, if monitor { " / monitor" } else { "" }),
                         p,
                         trap,
                     ));
@@ -438,6 +573,49 @@ fn main() {
         emit10(&mut w, p, &text, "planted", *trap, &[]);
     }
 
+    // ---- the same planted scripts run by the real binary (yash-cli's own
+    //      run_as_shell_process, real processes, job control) ---------------
+    {
+        let yash3 = build_yash3();
+        let scratch = std::path::PathBuf::from(format!("/verif/.cache/c10_scratch/{}", args.seed));
+        let n_real = if thorough { 1500 } else { 110 };
+        let mut cand: Vec<usize> = (0..total_planted).filter(|i| real_compatible(&planted[*i].1)).collect();
+        let mut r = rng.fork(9);
+        // the combinations named by the property first: EXIT trap set and the
+        // shell aborted by a shell error / errexit with job control on
+        let prefer = |name: &str| {
+            (name.contains("trap true")
+                && (name.contains("break 0")
+                    || name.contains("exit 1 2")
+                    || name.contains("special redirection")
+                    || name.contains("expansion error")
+                    || name.contains("assignment error")
+                    || name.contains("syntax error")
+                    || name.contains("break (maybe")))
+                || name.contains("monitor")
+                || name.contains("inside the EXIT trap action")
+        };
+        for i in (1..cand.len()).rev() {
+            let j = r.below(i + 1);
+            cand.swap(i, j);
+        }
+        let (mut pref, mut rest): (Vec<usize>, Vec<usize>) = cand.iter().partition(|i| prefer(&planted[**i].0));
+        pref.truncate(n_real * 3 / 4);
+        rest.truncate(n_real - pref.len().min(n_real));
+        pref.extend(rest);
+        pref.sort();
+        for i in pref {
+            let (name, p, trap) = &planted[i];
+            let mut rr = rng.fork(5000 + i as u64);
+            let vary = rr.chance(1, 2);
+            let text = render(p, &mut rr, vary);
+            let out = run_real(&yash3, &scratch.join(format!("{i}")), &text);
+            w.count(&format!("real:{}", name.split(" / ").next().unwrap()));
+            emit_out(&mut w, p, &text, "real-binary", *trap, true, &out, &[]);
+        }
+        let _ = std::fs::remove_dir_all(&scratch);
+    }
+
     // ---- random programs with error material --------------------------------
     let n = args.scale(500, 20000);
     for k in 0..n {
@@ -467,6 +645,9 @@ fn main() {
         }
         if r.chance(1, 2) {
             q.push(Line::Cmd(l1(call(Name::Set, &[1]))));
+        }
+        if r.chance(1, 3) {
+            q.push(Line::Cmd(l1(call(Name::Set, &[3]))));
         }
         if with_error_sources && r.chance(1, 4) {
             q.push(Line::Cmd(l1(Cmd::Readonly(r.below(3) as u32))));
